@@ -45,8 +45,8 @@ def call_integrate(system, t=None, events=None, callback=None, max_steps=200000)
     try:
         system.integrate(t=t, events=events, callback=cbs)
     except BaseException as e:  # noqa - KeyboardInterrupt is one of the injected faults
-        if type(e).__name__ == "CaseTimeout" or type(getattr(e, "__cause__", None)).__name__ == "CaseTimeout":
-            raise    # the per-case wall-clock watchdog: inconclusive, never a verdict
+        if type(e).__name__ in ("CaseTimeout", "NoProgress") or type(getattr(e, "__cause__", None)).__name__ in ("CaseTimeout", "NoProgress"):
+            raise    # the per-case wall-clock watchdog (inconclusive, never a verdict) / the loop guard (decided by the worker)
         seg["raised"] = type(e).__name__
         seg["exc"] = e
     seg["i1"] = len(system) - 1
